@@ -350,7 +350,7 @@ def rule_omit_std_types(ctx, ts):
                    f"emitted without serialization support as well, but nothing guarantees <{hdr}.h> then (the include list adds it only "
                    "for matching field kinds): e.g. an empty type or a float-only union does not compile with --omit-serialization-support",
                    getattr(node, "lineno", None))
-    ctx.floor(R, n, 3)
+    ctx.floor(R, n, 2)
 
 
 def rule_member_strop(ctx, ts):
